@@ -2650,9 +2650,16 @@ avx_rule_subusl_slow (OrcCompiler *p, void *user, OrcInstruction *insn)
   const int size = p->vars[insn->src_args[0]].size << p->loop_shift;
 
   if (size >= 32) {
+    /* a > b (unsigned) <=> (b>>1) - (a>>1) - (a & ~b & 1) < 0 */
     orc_avx_emit_psrld_imm (p, 1, src1, tmp2);
 
     orc_avx_emit_psrld_imm (p, 1, src0, tmp);
+    orc_avx_emit_psubd (p, tmp2, tmp, tmp2);
+
+    /* the halves tie when a and b differ in bit 0 only */
+    orc_avx_emit_pandn (p, src1, src0, tmp);
+    orc_avx_emit_pslld_imm (p, 31, tmp, tmp);
+    orc_avx_emit_psrld_imm (p, 31, tmp, tmp);
     orc_avx_emit_psubd (p, tmp2, tmp, tmp2);
 
     /* turn overflow bit into mask */
@@ -2662,9 +2669,16 @@ avx_rule_subusl_slow (OrcCompiler *p, void *user, OrcInstruction *insn)
     orc_avx_emit_psubd (p, src0, src1, dest);
     orc_avx_emit_pand (p, tmp2, dest, dest);
   } else {
+    /* a > b (unsigned) <=> (b>>1) - (a>>1) - (a & ~b & 1) < 0 */
     orc_avx_sse_emit_psrld_imm (p, 1, src1, tmp2);
 
     orc_avx_sse_emit_psrld_imm (p, 1, src0, tmp);
+    orc_avx_sse_emit_psubd (p, tmp2, tmp, tmp2);
+
+    /* the halves tie when a and b differ in bit 0 only */
+    orc_avx_sse_emit_pandn (p, src1, src0, tmp);
+    orc_avx_sse_emit_pslld_imm (p, 31, tmp, tmp);
+    orc_avx_sse_emit_psrld_imm (p, 31, tmp, tmp);
     orc_avx_sse_emit_psubd (p, tmp2, tmp, tmp2);
 
     /* turn overflow bit into mask */
